@@ -38,6 +38,8 @@ type TdMon struct {
 	holders map[int]int    // incarnation -> open handles (maintained by the harness)
 	Early   []string       // teardowns that happened while holders remained
 	removes int
+	// Yield, when set, is called at every hook point other than the teardown ones (stress workloads yield here)
+	Yield func(point string)
 }
 
 func NewTdMon() *TdMon {
@@ -71,6 +73,10 @@ func (m *TdMon) Install() {
 			m.Mu.Lock()
 			m.removes++
 			m.Mu.Unlock()
+		default:
+			if m.Yield != nil {
+				m.Yield(point)
+			}
 		}
 	})
 }
